@@ -463,7 +463,18 @@ fn run(case: &Value) -> Value {
     }
 }
 
+/// Nodes and clients always run with a tracing subscriber; tracing evaluates the arguments of a log statement only
+/// when a subscriber enables the call site.  So the harness installs one at TRACE level that formats every event's
+/// fields (into a sink): evaluating log arguments is part of what the code under test does in production.
+fn install_tracing() {
+    let _ = tracing_subscriber::fmt()
+        .with_max_level(tracing::Level::TRACE)
+        .with_writer(std::io::sink)
+        .try_init();
+}
+
 fn main() {
+    install_tracing();
     let args: Vec<String> = std::env::args().collect();
     if args.len() >= 7 && args[1] == "writer" {
         let (ok, failed) = writer(Path::new(&args[2]), args[3].parse().unwrap(), args[4].parse().unwrap(),
